@@ -32,6 +32,9 @@ REQS = ["v0", "v1", "v1.2", "v1.5", "v10", "v10x", "v2", "v9", "", "latest"]
 FAMILIES = ["register", "block", "section"]
 
 
+EMPTY_ID = 5
+
+
 def build(case):
     fam = case["family"]
     if fam == "register":
@@ -78,6 +81,7 @@ def build(case):
 
         comps = [mk(i) for i in range(8)]
     lists = {i: [comps[i]] for i in range(8)}
+    lists[EMPTY_ID] = []  # one declared list is EMPTY (a version in which the file has no typed component)
     tables = [None if t is None else {codec.dec_str(k): lists[v] for k, v in t} for t in case["tables"]]
     init = case["init"]
 
@@ -139,7 +143,7 @@ def run_impl(case):
 def request(case, obs):
     if "harness_exc" in obs:
         obs = {"exc": "harness"}
-    return {"op": "c19", "tables": case["tables"], "init": case["init"], "ops": case["ops"], "obs": obs["trace"] if "trace" in obs else obs}
+    return {"op": "c19", "tables": case["tables"], "init": case["init"], "ops": case["ops"], "empty_id": EMPTY_ID, "obs": obs["trace"] if "trace" in obs else obs}
 
 
 def show_case(case):
